@@ -1,5 +1,6 @@
 """C16 - Recorded size and timestamps describe the real file in any time zone."""
 import re
+import posixpath
 from ..runner import Harness
 from ..pse import truth
 from .. import pse
@@ -126,6 +127,36 @@ def zone_history(b, sym):
         b.require(truth(dd[2] == std_now), "date-offset-in-force", "%s in %s: offset differs from today's" % (what, name))
 
 
+def same_names_in_nested_histories(b, sym):
+    """files with the same history-relative path, different sizes and modification times, in two nested histories and their parent:
+    every record describes its own file (folder mode and one -sf run that names all of them)"""
+    specs = {"R/A2/Sidecar.txt": (5, 3, 1610699412), "R/A3/Sidecar.txt": (6, 1120, 1626365144), "R/Sidecar.txt": (7, 40, 1600000000)}
+    for f, (cid, size, mt) in specs.items():
+        b.mkfile(f, cid, size=size, mtime=mt)
+    b.use_fixed_offset(3600 * sym.choose("zone_hours", [0, 2]))
+    for hr in ("R/A2", "R/A3"):
+        r = b.run("create", root=hr, h=["md5"])
+        b.require(r.exit == 0, "setup-create", str(r))
+    mode = sym.choose("mode", ["folder", "sf-all", "sf-reversed"])
+    names_before = {x: b.manifest_names(x) for x in ("R", "R/A2", "R/A3")}
+    if mode == "folder":
+        r = b.run("create", root="R", h=["md5"])
+    else:
+        sel = sorted(specs) if mode == "sf-all" else sorted(specs)[::-1]
+        r = b.run("create", root="R", h=["md5"], sf=sel)
+    b.require(r.exit == 0 and r.exc is None, "create-exit-0", str(r))
+    for f, (cid, size, mt) in specs.items():
+        hr = posixpath.dirname(f)
+        new = [m for m in b.manifests(hr) if m.file not in names_before[hr]]
+        b.require(len(new) == 1, "one-manifest", "%s: %d" % (hr, len(new)))
+        rec = new[0].record("Sidecar.txt")
+        b.require(rec is not None, "file-recorded", f)
+        sz = b.int_attr(rec.size)
+        b.require(sz is not None and truth(sz == size), "size-attribute", "%s (%s mode): recorded %r, the file has %d bytes" % (f, mode, rec.size if b.real else "sym", size))
+        d = b.date_attr(rec.lastmod)
+        b.require(d is not None and truth(d[0] == mt), "date-denotes-instant", "%s (%s mode): lastmodificationdate is not this file's modification instant" % (f, mode))
+
+
 def flatten_dates(b, sym):
     """create under one fixed-offset zone, flatten under another: the dates in the packing list denote the same instants"""
     z1 = 60 * sym.choose("create_zone_minutes", [0, -480, 330])
@@ -164,6 +195,10 @@ def harnesses(tier):
     return [Harness("c16-flatten", flatten_dates, frontier=3, budget_s=600,
                     what="create under a fixed-offset zone (UTC, -8 h, +5:30), flatten under another (+1 h, -8 h, -2:30): sizes and dates of the packing list",
                     bounds={"zones": "3 x 3 fixed offsets"}, outside=["DST zones for flatten (covered for create by c16-dates)"]),
+            Harness("c16-same-names", same_names_in_nested_histories, frontier=3, budget_s=600,
+                    what="three files with the same history-relative path (different sizes and modification times) in two nested histories and "
+                         "their parent, recorded in folder mode or by one -sf run naming all three: each record carries its own file's size and date",
+                    bounds={"modes": 3, "zones": "UTC | +2 h"}, outside=[]),
             Harness("c16-zone-history", zone_history, frontier=3, budget_s=600, real_opts={"clock": "real"},
                     what="a file whose modification time lies in a period in which the zone had other rules than today (Europe/Moscow 2012, "
                          "America/Sao_Paulo 2018, Europe/Istanbul 2015): lastmodificationdate carries the offset that was in force then, the "
